@@ -283,15 +283,14 @@ func runC06(c *Ctx) {
 	p := tw.Plans[0]
 	big := c.Arg["big"] == "1"
 	maxClient := 65535
-	if p.Transport == "legacy" && !big {
-		maxClient = 8182 // larger packets on the legacy transport are the C08 finding
-	}
+	_ = big
 	nd, nh := 1+c.T.Choose(12), 1+c.T.Choose(12)
 	if c.Tier == "thorough" && c.T.Bool(1, 20) {
 		nd, nh = 20+c.T.Choose(40), 20+c.T.Choose(40)
 	}
 	d := buildStreamPlan(c, tw, p, nd, nh, maxClient, 20000, c.Arg["lies"] != "0")
 	ns := c.T.Weighted(2, 3, 2, 1)
+	p.Stream = c.T.Bool(1, 2) // TCP re-segmentation of the client's writes
 	installStalls(c, ns)
 	tw.Tuns = StartTunnels(c, tw.Plans)
 	RunTunnels(c, tw.Tuns, 20000)
